@@ -96,6 +96,23 @@ CLAIMED = {
        'running concurrently) and reopening each copy with a fresh DiskStorage (load + get), compared with the model and monitored directly.',
   ref='6/C04', technique='Lean 4 proof (file-system effect prefixes, frame lemmas) + crash-point enumeration of the real DiskStorage vs the model',
   note='Partial: power loss / fsync ordering is out of scope (the property says the process dies); kernel atomicity assumed.'),
+ 'C07': dict(
+  text='Lean theorems over Model/Server.lean (Server.handle / _command_* transliteration), for every validator behaviour, state and command '
+       'line: a command produces exactly one final reply (none yet while an AUTH exchange is pending), either one of the server\'s own error '
+       'replies with no callback or a callback admissible in the current state (MAIL only after EHLO/HELO and with no sender open, RCPT only with '
+       'an accepted sender, DATA only with sender and recipient, EHLO/HELO only after the greeting) followed by its reply; a 221/421 reply always '
+       'closes with CLOSE last; sender/recipients are forgotten after accepted RSET, EHLO/HELO, every message and a TLS handshake; no command but '
+       'MAIL/RCPT can raise the sender/recipient flag. Tied to the code by running the real Server with a recording handler over all sequences of '
+       'depth 2 (quick) / 3 (thorough) after 8 state-reaching prefixes over a 38-line command alphabet x verdicts x 4 extension configurations.',
+  ref='6/C07', technique='Lean 4 proof (case analysis of the command step function, shape predicate) + differential correspondence vs real smtp.Server'),
+ 'C09': dict(
+  text='Lean theorems over Model/Server.lean + Model/Data.lean: for every validator behaviour, AUTH oracle and server state, two connections that '
+       'deliver the same bytes (any recv_buffer prefix, any cuts: inside commands, message data or AUTH responses) yield the same replies, the '
+       'same callbacks with the same arguments (message content included), the same ending, final state and unread bytes; lifted to whole sessions '
+       'with STARTTLS switch-over; uses C05\'s reader theorem incl. the size limit. Tied to the code by delivering generated session streams '
+       '(several transactions, command-looking bodies, lone dots, bodies around the SIZE limit, pipelining past DATA) under 8 segmentations to the '
+       'real Server: all traces must agree with each other and with the model.',
+  ref='6/C09', technique='Lean 4 proof (stream-equivalence relation preserved by every reader; induction on fuel) + metamorphic/differential correspondence vs real smtp.Server'),
 }
 def main():
     props = [json.loads(l) for l in open(os.path.join(V, 'properties.jsonl'))]
